@@ -20,8 +20,13 @@ The recursion of `depth_first_search` is a fuelled structural recursion (`fuel` 
 fuel supplied by `allScc` is enough on every `Graph` value whatsoever (`allScc_ne_diverges`).  A real stack
 overflow on deep recursion is outside the model.
 
-No imports: this file is linked into the driver executable.
+The only import is the graph model of C15 (`Model/Graph.lean`: the `Graph` accessors and the loader), used at
+the end of this file to state which accessors the analysis goes through (`Graph.ofNet`) and to model the
+accessors C15 does not (`incident_edges_iter`, `out_/in_edges_iter`, `incident_triplet_attributes`).
+This file is linked into the driver executable.
 -/
+import Compass.Model.Graph
+
 namespace Compass
 namespace Scc
 
@@ -109,13 +114,14 @@ def largestScc (g : Graph) : Except Err (List Nat) :=
 
 /-! ### well-formedness (what `graph_loader` establishes): executable -/
 
-/-- `adj`/`rev` have one slot per vertex, every edge joins existing vertices, and slot `v` of `adj`
-(`rev`) holds exactly the ids of the edges leaving (entering) `v`, in any order. -/
+/-- every edge joins existing vertices, every slot of `adj` (`rev`) names only edges that leave (enter) that
+vertex, and every edge is named by the slot of its source and of its destination — slots in any order, and any
+number of slots (the loader sizes the tables with the declared / scanned vertex count, which may exceed the
+number of vertex rows; surplus slots are then empty, missing slots belong to vertices without edges). -/
 def Graph.wfb (g : Graph) : Bool :=
-  g.adj.size == g.n && g.rev.size == g.n &&
   g.edges.toList.all (fun p => decide (p.1 < g.n) && decide (p.2 < g.n)) &&
-  (List.range g.n).all (fun v => (g.outEdges v).all (fun e => g.srcOf e == some v)) &&
-  (List.range g.n).all (fun v => (g.inEdges v).all (fun e => g.dstOf e == some v)) &&
+  (List.range g.adj.size).all (fun v => (g.outEdges v).all (fun e => g.srcOf e == some v)) &&
+  (List.range g.rev.size).all (fun v => (g.inEdges v).all (fun e => g.dstOf e == some v)) &&
   (List.range g.edges.size).all (fun e =>
     match g.edges[e]? with
     | none => false
@@ -155,5 +161,57 @@ def isSccPartition (g : Graph) (cs : List (List Nat)) : Bool :=
   cs.flatten.all (fun v => decide (v < g.n)) &&
   cs.all (fun c => c.all (fun u => (List.range g.n).all (fun v => c.contains v == mutualIn tbl u v)))
 
+/-! ### the analysis reads a network only through these accessors of `graph.rs` -/
+
+/-- what `scc.rs` sees of a network value: `vertex_ids()`, the `keys()` of every slot (`out_edges`,
+`in_edges`), and the end points of the edge records (`src_vertex_id`, `dst_vertex_id`) -/
+def Graph.ofNet {α : Type} (g : Compass.Graph α) : Graph :=
+  { n := g.nVertices,
+    edges := (g.edges.map (fun e => (e.src, e.dst))).toArray,
+    adj := (g.adj.map adjKeys).toArray,
+    rev := (g.rev.map adjKeys).toArray }
+
 end Scc
+
+/-! ### accessors of `graph.rs` that `Model/Graph.lean` does not model -/
+
+namespace Graph
+variable {α : Type}
+
+/-- `out_edges_iter`: `out_edges` is `self.out_edges_iter(src).cloned().collect_vec()` -/
+def outEdgesIter (g : Graph α) (v : Nat) : List Nat := g.outEdges v
+/-- `in_edges_iter` -/
+def inEdgesIter (g : Graph α) (v : Nat) : List Nat := g.inEdges v
+
+/-- `incident_edges_iter` -/
+def incidentEdgesIter (g : Graph α) (v : Nat) : Direction → List Nat
+  | .forward => g.outEdgesIter v
+  | .reverse => g.inEdgesIter v
+
+/-- the `.map(..).collect::<Result<Vec<_>, _>>()` of `incident_triplet_attributes`: per triplet the vertex of
+the first id, the edge, the vertex of the third id, in that order; the first error wins -/
+def tripletAttrsGo (g : Graph α) : List (Nat × Nat × Nat) → Except NetErr (List (Vertex α × Edge α × Vertex α))
+  | [] => .ok []
+  | (s, e, d) :: r =>
+    match g.getVertex s with
+    | .error x => .error x
+    | .ok sv =>
+      match g.getEdge e with
+      | .error x => .error x
+      | .ok ed =>
+        match g.getVertex d with
+        | .error x => .error x
+        | .ok dv =>
+          match tripletAttrsGo g r with
+          | .error x => .error x
+          | .ok l => .ok ((sv, ed, dv) :: l)
+
+/-- `incident_triplet_attributes` -/
+def incidentTripletAttributes (g : Graph α) (v : Nat) (d : Direction) :
+    Except NetErr (List (Vertex α × Edge α × Vertex α)) :=
+  match g.incidentTripletIds v d with
+  | .error x => .error x
+  | .ok l => tripletAttrsGo g l
+
+end Graph
 end Compass
